@@ -8,6 +8,7 @@ import (
 	"os"
 	"path/filepath"
 	"sync"
+	"unicode/utf8"
 )
 
 const (
@@ -127,6 +128,16 @@ func (c *Config) Validate() error {
 
 	if c.SSTDir == "" {
 		return fmt.Errorf("%w: SSTable directory not specified", ErrInvalidConfig)
+	}
+
+	// The manifest is JSON: a directory name that is not valid UTF-8 would be stored with
+	// U+FFFD in place of the offending bytes and load back as a different directory.
+	if !utf8.ValidString(c.WALDir) {
+		return fmt.Errorf("%w: WAL directory is not valid UTF-8", ErrInvalidConfig)
+	}
+
+	if !utf8.ValidString(c.SSTDir) {
+		return fmt.Errorf("%w: SSTable directory is not valid UTF-8", ErrInvalidConfig)
 	}
 
 	if c.MemTableSize <= 0 {
